@@ -84,7 +84,7 @@ func (n NodeSet) String() string {
 		return ""
 	}
 
-	return GetCursorString(n[0])
+	return GetCursorString(firstInDocumentOrder(n))
 }
 
 func (n NodeSet) Number() float64 {
@@ -93,6 +93,18 @@ func (n NodeSet) Number() float64 {
 
 func (n NodeSet) Bool() bool {
 	return len(n) > 0
+}
+
+func firstInDocumentOrder(n NodeSet) store.Cursor {
+	first := n[0]
+
+	for _, i := range n {
+		if i.Pos() < first.Pos() {
+			first = i
+		}
+	}
+
+	return first
 }
 
 func getStringNumber(str string) float64 {
